@@ -35,6 +35,19 @@ Definition db_a4 : database := fun _ => mkraw F64 1 0 [4607182418800017408; 4611
 Definition v0 : variant := {| v_align := false; v_rawpad := false; v_alloc0 := false; v_clamp := false; v_bofceil := false |}.
 Definition v1 : variant := {| v_align := true; v_rawpad := true; v_alloc0 := true; v_clamp := true; v_bofceil := true |}.
 
+(* the frozen tree: C01-1/2/4, C16-1/3/4 applied; C01-3 (padding by return type) and C16-2 (rounding up) not *)
+Definition vc : variant := {| v_align := true; v_rawpad := false; v_alloc0 := true; v_clamp := true; v_bofceil := false |}.
+
+(* r1 RAW INT16 2, r2 RAW INT64 7, frame offset 2; f3 PHASE r2 -1; m MULTIPLY r1 f3 *)
+Definition db_bof : database := fun id =>
+  if N.eqb id 0 then mkraw I16 2 2 [1; 2; 3; 4; 5; 6; 7; 8; 9; 10; 11; 12]
+  else mkraw I64 7 2 [1; 2; 3; 4; 5; 6; 7; 8; 9; 10; 11; 12; 13; 14; 15; 16; 17; 18; 19; 20; 21].
+Definition m_bof := Bin BMultiply (Raw 0) (Phase (Raw 1) (-1)).
+(* a RAW FLOAT64 1 = 1..20; i RAW INT32 1 = 0,1,0,1,..; p PHASE i 6; x MPLEX a p 2 0 *)
+Definition db_mx : database := fun id =>
+  if N.eqb id 0 then mkraw F64 1 0 d1_20 else mkraw I32 1 0 [0; 1; 0; 1; 0; 1; 0; 1; 0; 1; 0; 1; 0; 1; 0; 1; 0; 1; 0; 1].
+Definition x_mx := Mplex (Raw 0) (Phase (Raw 1) 6) 2 0.
+
 Definition a := Raw 0.
 Definition b := Raw 1.
 Definition m_ab := Bin BMultiply a b.                 (* m MULTIPLY a b *)
